@@ -5,6 +5,7 @@ import (
 	"math"
 	"sort"
 	"strings"
+	"sync"
 	"time"
 
 	metav1 "k8s.io/apimachinery/pkg/apis/meta/v1"
@@ -224,7 +225,7 @@ func batchedAcquire(r *vkit.R) {
 // smallest ones (qps 1, burst 1) and asks the largest (MaxInt32).
 func tokenBucketReconfigured(r *vkit.R) {
 	n := r.N(60, 600)
-	cfgs := [][2]int32{{1, 1}, {1, 100}, {100, 1}, {1000, 50}, {5000, 500}, {200, 200}, {20000, 3}}
+	cfgs := [][2]int32{{1, 1}, {1, 100}, {100, 1}, {1000, 50}, {5000, 500}, {200, 200}, {20000, 3}, {1, math.MaxInt32}, {math.MaxInt32, math.MaxInt32}, {math.MaxInt32, 1}}
 	r.Parallel(n, 8, func(i int, g *vkit.Rand) {
 		cfg := cfgs[g.Intn(len(cfgs))]
 		t, err := newTBServer(i, tbSchema("tb", cfg[0], cfg[1]))
@@ -253,7 +254,10 @@ func tokenBucketReconfigured(r *vkit.R) {
 				set(tbSchema("tb", qps, burst))
 				r.Count("tbre_"+how, 1)
 			}
-			asks := []int32{1, 1, 2, 3, 8, burst, burst + 1, 2 * burst, math.MaxInt32, 0}
+			asks := []int32{1, 1, 2, 3, 8, burst, c32(int64(burst) + 1), c32(2 * int64(burst)), math.MaxInt32, 0}
+			if burst == math.MaxInt32 || qps == math.MaxInt32 {
+				r.Count("tbre_phases_with_qps_or_burst_maxint32", 1)
+			}
 			var grants []grant
 			m := g.Range(150, 400)
 			for q := 0; q < m; q++ {
@@ -309,7 +313,132 @@ func tokenBucketReconfigured(r *vkit.R) {
 		r.Distinct(vkit.Hash64(fmt.Sprintf("tbre/%d/%v", i, cfg)))
 	})
 	r.Require(r.Counter("tbre_phases") >= 100 && r.Counter("tbre_grants") >= 300 && r.Counter("tbre_refused_or_partial") >= 1000 &&
-		r.Counter("tbre_resized") >= 10 && r.Counter("tbre_recreated") >= 10 && r.Counter("tbre_type-toggled") >= 10, "re-configured token-bucket runs observed too little")
+		r.Counter("tbre_phases_with_qps_or_burst_maxint32") >= 20 && r.Counter("tbre_resized") >= 10 && r.Counter("tbre_recreated") >= 10 && r.Counter("tbre_type-toggled") >= 10, "re-configured token-bucket runs observed too little")
 }
 
 var _ = strings.Repeat
+
+// tokenBucketReconfiguredWhileAsked: the bucket is re-configured (other qps / burst) WHILE instances are asking. The bound is
+// defined for the grants of each configuration: grants whose call had RETURNED before the change was delivered are judged
+// with the old parameters, grants whose call STARTED after the delivery had returned with the new ones (a fresh bucket holds
+// at most its burst, which is what the bound allows a window to start with); grants of calls that overlap the delivery belong
+// to neither and are only counted. The k caller goroutines take turns under a harness mutex (see tokenBucket), so within a
+// group the timestamps the bucket sees are non-decreasing and the bound is exact; the delivery runs in a goroutine of its own,
+// outside that mutex, and really races with a call.
+func tokenBucketReconfiguredWhileAsked(r *vkit.R) {
+	n := r.N(60, 600)
+	cfgs := [][2]int32{{1, 1}, {100, 5}, {1000, 50}, {5000, 500}, {200, 200}, {20000, 3}}
+	r.Parallel(n, 8, func(i int, g *vkit.Rand) {
+		oldC, newC := cfgs[g.Intn(len(cfgs))], cfgs[g.Intn(len(cfgs))]
+		t, err := newTBServer(i, tbSchema("tb", oldC[0], oldC[1]))
+		if err != nil {
+			r.Inconclusive("ApplyUpstream failed: " + err.Error())
+			return
+		}
+		k := g.Range(2, 5)
+		per := g.Range(150, 300)
+		var turn, mu sync.Mutex
+		var grants []grant
+		var ta, tb int64
+		var wg sync.WaitGroup
+		seeds := make([]*vkit.Rand, k)
+		for w := range seeds {
+			seeds[w] = g.Sub(w)
+		}
+		started := make(chan struct{})
+		var once sync.Once
+		for w := 0; w < k; w++ {
+			wg.Add(1)
+			go func(w int, g *vkit.Rand) {
+				defer wg.Done()
+				var mine []grant
+				for q := 0; q < per; q++ {
+					if q == per/3 {
+						once.Do(func() { close(started) })
+					}
+					ask := []int32{1, 1, 2, 3, 8, 16, 50, 0}[g.Intn(8)]
+					turn.Lock()
+					t0 := bed.Now()
+					rs, err := t.acquire(fmt.Sprintf("gw%d", w), "tb", int64(q+1), ask)
+					t1 := bed.Now()
+					turn.Unlock()
+					if err != nil {
+						r.Violation("C08/tokenbucket/reconfigured-while-asked/acquire-failed", fmt.Sprintf("DoAcquire(%d) failed while the bucket was being re-configured: %v", ask, err), nil)
+						return
+					}
+					gr := grant{Inst: w, Asked: ask, Call: t0, Return: t1}
+					if rs.Accept {
+						gr.Granted = rs.Limit
+					}
+					legal := gr.Granted == 0
+					for h, v := 0, ask; h < 4 && v > 0; h, v = h+1, v/2 {
+						if gr.Granted == v {
+							legal = true
+						}
+					}
+					if !legal || rs.Error != "" {
+						r.Violation("C08/tokenbucket/reconfigured-while-asked/grant-not-in-halving-series", fmt.Sprintf("asked %d, granted %d accept=%v error=%q", ask, gr.Granted, rs.Accept, rs.Error), gr)
+						return
+					}
+					if gr.Granted > 0 {
+						mine = append(mine, gr)
+					}
+				}
+				mu.Lock()
+				grants = append(grants, mine...)
+				mu.Unlock()
+			}(w, seeds[w])
+		}
+		wg.Add(1)
+		go func() {
+			defer wg.Done()
+			<-started
+			c := t.cluster.DeepCopy()
+			c.Spec.FlowControl.Schemas = []proxyv1alpha1.FlowControlSchema{tbSchema("tb", newC[0], newC[1])}
+			ta = bed.Now()
+			_ = t.srv.ApplyUpstream(c)
+			tb = bed.Now()
+		}()
+		wg.Wait()
+		r.Eval(1)
+		r.Count("tbrace_runs", 1)
+		sort.Slice(grants, func(a, b int) bool { return grants[a].Call < grants[b].Call })
+		var before, after []grant
+		for _, gr := range grants {
+			switch {
+			case gr.Return < ta:
+				before = append(before, gr)
+			case gr.Call > tb:
+				after = append(after, gr)
+			default:
+				r.Count("tbrace_grants_overlapping_the_change_unjudged", 1)
+			}
+		}
+		r.Count("tbrace_grants_before_the_change", len(before))
+		r.Count("tbrace_grants_after_the_change", len(after))
+		if len(before) > 0 && len(after) > 0 {
+			r.Count("tbrace_runs_with_grants_on_both_sides", 1)
+		}
+		judge := func(gs []grant, qps, burst int32, side string) bool {
+			for a := 0; a < len(gs); a++ {
+				var sum int64
+				for b := a; b < len(gs); b++ {
+					sum += int64(gs[b].Granted)
+					T := float64(gs[b].Return-gs[a].Call) / 1e9
+					if allowed := float64(burst) + float64(qps)*T + 1; float64(sum) > allowed {
+						r.Violation("C08/tokenbucket/reconfigured-while-asked/window-bound/"+side,
+							fmt.Sprintf("re-configuration qps/burst %v -> %v delivered while %d instances were asking: the grants wholly %s the change (judged with qps=%d burst=%d) hold a window of %.3f ms with %d tokens, more than burst+qps*T = %.1f",
+								oldC, newC, k, side, qps, burst, T*1e3, sum, allowed-1),
+							map[string]interface{}{"old": oldC, "new": newC, "change_ns": []int64{ta, tb}, "window": []grant{gs[a], gs[b]}, "grants_on_this_side": len(gs)})
+						return false
+					}
+				}
+			}
+			return true
+		}
+		if judge(before, oldC[0], oldC[1], "before") {
+			judge(after, newC[0], newC[1], "after")
+		}
+	})
+	r.Require(r.Counter("tbrace_runs") >= 50 && r.Counter("tbrace_runs_with_grants_on_both_sides") >= 30 && r.Counter("tbrace_grants_after_the_change") >= 300, "re-configuration racing with asks observed too little")
+}
